@@ -244,6 +244,24 @@ theorem C07_shared_snapshot_cost (strat : Strategy) (progs : List (Codes × Taxa
     | some K1 => exact h0
     | none => simp only [dictGet?_append_single, h0]
 
+/-- The life of the snapshots, for every step: `set_imparted_knowledge` and a foreign clear drop them all; an
+in-place mutation leaves them as they are (that is the staleness); a `taxon_cost` or a whole assessment
+only EXTENDS them (`SnapExt`): no recorded snapshot is replaced, and every new one records the knowledge
+read at that step. -/
+theorem C07_shared_snapshots (strat : Strategy) (progs : List (Codes × TaxaSpans)) (g : GState) (op : SOp) :
+    match op with
+    | .setKnowledge _ => (gstep strat progs g op).1.snap = []
+    | .foreignClear => (gstep strat progs g op).1.snap = []
+    | .mutateKnowledge _ _ _ => (gstep strat progs g op).1.snap = g.snap
+    | .taxonCost _ => SnapExt g.knowledge g.snap (gstep strat progs g op).1.snap
+    | .assess _ => SnapExt g.knowledge g.snap (gstep strat progs g op).1.snap := by
+  cases op with
+  | setKnowledge a => rfl
+  | foreignClear => rfl
+  | mutateKnowledge a add del => rfl
+  | taxonCost t => exact gCost_ext strat g.knowledge g.snap t
+  | assess sel => exact gAssess_ext strat progs g.knowledge sel g.snap
+
 /-- **Any disciplined history is sound**: if no cost is asked while the pointed-to object has been
 changed in place since the last `set_imparted_knowledge` (`disciplined`), every output is the pure
 function of the knowledge read at that step. -/
